@@ -37,7 +37,7 @@ def run_unit_mutants(unit, repo):
         verdict = {'ok': 'ok', 'refuted': 'refuted', 'undecided': 'undecided', 'error': 'undecided'}[r.status]
         good = (verdict == m['expect']) or (m['expect'] == 'refuted' and verdict == 'undecided')
         return dict(mutant=k, unit=unit, verdict=verdict, expect=m['expect'], ok=good,
-                    failed=[e['fn'] + ': ' + e['message'] for e in r.errors][:3])
+                    failed=[(e['fn'] or '<proof item>') + ': ' + e['message'] for e in r.errors][:3])
     try:
         with ThreadPoolExecutor(max_workers=6) as ex:
             return list(ex.map(one, list(muts)))
